@@ -164,9 +164,14 @@ func init() {
 		}
 		for ; i < len(a); i++ {
 			op := a[i]
+			quiet := strings.HasPrefix(op, "!") // the step is made, the boards are not asked anything afterwards
+			op = strings.TrimPrefix(op, "!")
 			b := boards[active]
 			res := "bad-op"
 			switch {
+			case op == "q": // pure queries must leave no trace
+				p := b.Position()
+				res = fmt.Sprintf("q:%v:%v:%v:%d", p.IsChecked(b.Turn()), p.IsChecked(b.Turn().Opponent()), p.IsCheckMate(b.Turn()), len(p.LegalMoves(b.Turn())))
 			case strings.HasPrefix(op, "m:"):
 				res = "nomove"
 				for _, m := range b.Position().PseudoLegalMoves(b.Turn()) {
@@ -196,7 +201,11 @@ func init() {
 			case op == "adj":
 				res = fmtResult(b.AdjudicateNoLegalMoves())
 			}
-			outs = append(outs, res+" "+all())
+			if quiet {
+				outs = append(outs, res+" unobserved")
+			} else {
+				outs = append(outs, res+" "+all())
+			}
 		}
 		return strings.Join(outs, " | ")
 	})
@@ -391,6 +400,21 @@ func genGame(o *Out, r *rand.Rand, thorough bool) {
 		o.Count("ztable:edge-seed")
 	}
 	seeds = append(seeds, edge[r.Intn(len(edge))])
+	// the move that mates or stalemates also completes a draw condition (hundredth quiet half-move, capture into bare
+	// material): adjudication must still say checkmate / stalemate
+	for _, c := range [][2]string{
+		{"k7/7R/6R1/8/8/8/8/7K w - - 99 60", "m:g6g8 adj"},
+		{"7k/8/5K2/8/8/8/8/6Q1 w - - 99 70", "m:g1g6 adj"},
+		{"7K/8/5k2/8/8/8/8/6q1 b - - 99 70", "m:g1g6 adj"},
+		{"k7/2n5/1K6/8/8/8/8/6B1 w - - 3 50", "m:b6c7 adj q"},
+		{"5k2/5P2/5K2/8/8/8/8/8 b - - 99 80", "adj q"},
+		{"R6k/6pp/8/8/8/8/8/6K1 b - - 100 90", "adj q"},
+	} {
+		line := fmt.Sprintf("game 0 %s ; %s", c[0], c[1])
+		o.do(line)
+		o.Count("game:curated-terminal-draw")
+		o.Nontrivial(line)
+	}
 	for i := 0; i < n; i++ {
 		seed := seeds[r.Intn(len(seeds))]
 		start := gameStarts[r.Intn(len(gameStarts))]
@@ -453,6 +477,22 @@ func genGame(o *Out, r *rand.Rand, thorough bool) {
 					}
 				}
 			}
+		}
+		// sparse observation and pure queries: some steps are made without asking the boards anything afterwards (`!`), and
+		// `q` asks questions that must leave no trace (a memo must never become part of a position or outlive its history)
+		if i%2 == 1 {
+			var ops2 []string
+			for _, op := range g.ops {
+				if (strings.HasPrefix(op, "m:") || op == "pop") && r.Intn(3) == 0 {
+					op = "!" + op
+				}
+				ops2 = append(ops2, op)
+				if r.Intn(8) == 0 {
+					ops2 = append(ops2, []string{"q", "!q"}[r.Intn(2)])
+				}
+			}
+			g.ops = ops2
+			g.tags["sparse-observation"] = true
 		}
 		line := fmt.Sprintf("game %d %s ; %s", seed, start, strings.Join(g.ops, " "))
 		o.do(line)
